@@ -43,12 +43,18 @@ def demo_place(demo_src):
 
 
 def main():
-    args = [a for a in sys.argv[1:] if not a.startswith("--")]
-    all_props = "--all-props" in sys.argv
+    argv = list(sys.argv[1:])
+    muts = (1, 2)
+    if "--muts" in argv:
+        k = argv.index("--muts")
+        muts = tuple(int(x) for x in argv[k + 1].split(","))
+        del argv[k:k + 2]
+    args = [a for a in argv if not a.startswith("--")]
+    all_props = "--all-props" in argv
     ids = args or ALL
     summary = []
     for pid in ids:
-        for i in (1, 2):
+        for i in muts:
             patch = os.path.join(SRC, pid, "mut%d.diff" % i)
             demo = os.path.join(SRC, pid, "mut%d_demo_test.go" % i)
             notes = os.path.join(SRC, pid, "mut%d.md" % i)
